@@ -174,6 +174,7 @@ type Evaluator struct {
 	// weak updates of all elements (sound for dependence questions).
 	symbolicElems bool
 	litCache      map[*ssa.Global]Val
+	backing       map[*ssa.Global]*Obj
 	unroll        bool   // execute counted loops with constant bounds iteration by iteration
 	ctx           string // calling context (chain of call sites)
 	siteObjs      map[string]*Obj
@@ -653,6 +654,19 @@ func (f *frame) get(ev *Evaluator, v ssa.Value) Val {
 	return symVal("?"+v.Name(), v.Type())
 }
 
+// tableBacking is the abstract object standing for the backing array of a slice-typed table.
+func (ev *Evaluator) tableBacking(g *ssa.Global) *Obj {
+	if ev.backing == nil {
+		ev.backing = map[*ssa.Global]*Obj{}
+	}
+	if o, ok := ev.backing[g]; ok {
+		return o
+	}
+	o := ev.newObj("table:"+g.Name(), false)
+	ev.backing[g] = o
+	return o
+}
+
 func (ev *Evaluator) globalObj(g *ssa.Global) *Obj {
 	if ev.globals == nil {
 		ev.globals = map[*ssa.Global]*Obj{}
@@ -679,10 +693,21 @@ func (ev *Evaluator) load(st State, p Val, t types.Type) Val {
 				return it
 			}
 		}
-		if !ok && x.Obj.global != nil && concretePath(x.Path) {
+		if !ok && x.Obj.global != nil && concretePath(x.Path) && ev.unroll {
 			// an immutable array/struct table reads as its composite literal
 			if lv, ok := ev.globalLiteral(x.Obj.global); ok {
-				return getPath(lv, x.Path)
+				if _, isSl := t.Underlying().(*types.Slice); isSl && len(x.Path) == 0 {
+					// a slice table: its backing array is an object of its own
+					if agg, isAgg := lv.(*Agg); isAgg {
+						bo := ev.tableBacking(x.Obj.global)
+						if _, have := st.mem[bo]; !have {
+							st.mem[bo] = agg
+						}
+						return &SliceV{Arr: bo, Lo: 0, Len: len(agg.Elems)}
+					}
+				} else {
+					return getPath(lv, x.Path)
+				}
 			}
 		}
 		if !ok && x.Obj.global != nil && len(x.Path) > 0 {
